@@ -27,7 +27,7 @@ ASSUMPTIONS = ['a compound assignment inside an ast_names body that mutates a sh
                'asynchronous exceptions inside pop_scope are outside the property (only synchronous failures injected)']
 REAL = ['smartquery.*']
 STUB = ['host callbacks call / attempt / t / boom']
-REACH_PROBES = ('body_raised', 'host_swallow', 'budget_abort_in_lambda', 'shadow_builtin', 'shadow_host', 'recursion',
+REACH_PROBES = ('second_names_mapping', 'parse_failure_between_evals', 'body_raised', 'host_swallow', 'budget_abort_in_lambda', 'shadow_builtin', 'shadow_host', 'recursion',
                 'cross_eval_lambda', 'ast_names_body', 'failed_then_judged', 'depth_checked', 'hof_driver')
 
 POOL = ['x', 'y', 'v', 'len', 'max', 'acc']
@@ -204,11 +204,24 @@ def generate(seed, tier):
     S = Streams(seed)
     rc, ro, rf = S['config'], S['ops'], S['faults']
     world = _world(rc)
-    model = history.model_only(world)
+    models = [history.model_only(world)]
+    if rc.random() < 0.5:
+        # a second, independent host names mapping served by the SAME parser (scopes of one must never reach the other)
+        world['second'] = _world(rc)
+        models.append(history.model_only(world['second']))
     ops = []
     for _ in range(rc.randint(1, 6)):
+        si = ro.randrange(len(models))
+        model = models[si]
         g = G(ro, model)
-        op = {'op': 'eval'}
+        op = {'op': 'eval', 'space': si}
+        if rf.random() < 0.12:
+            # a call whose text does not parse (fault between "scope pushed" and "evaluation started")
+            from .. import badsrc
+            bk, text = badsrc.make_bad(rf, lang.render(g.program(), 0))
+            if bk in ('premature_end', 'unbalanced_open', 'unbalanced_close', 'illegal_char', 'unterminated_string', 'reserved_word'):
+                ops.append({'op': 'bad', 'space': si, 'src': text, 'bad': bk})
+                continue
         if ro.random() < 0.25:
             g.kinds.add('ast_names_body')
             spec = g.ast_body()
@@ -243,11 +256,28 @@ def _toplevel_targets(prog):
 
 def execute(case, ctx):
     import copy
-    W = history.World(case['world'])
+    W0 = history.World(case['world'])
+    Ws = [W0]
+    if case['world'].get('second'):
+        Ws.append(history.World(case['world']['second'], parser=W0.parser))
     snap = _functions_snapshot()
     failed = False
     for step, op in enumerate(case['ops']):
         ctx.step = step
+        W = Ws[op.get('space', 0)]
+        if len(Ws) > 1:
+            ctx.probe('second_names_mapping')
+        if op['op'] == 'bad':
+            from ..world import real_eval as _re
+            rout = _re(W.parser, op['src'], W.names)
+            ctx.fault('bad_source')
+            ctx.probe('parse_failure_between_evals')
+            if rout.kind == 'base':
+                ctx.report('non_exception_escaped', 'step %d %r: %r' % (step, op['src'][:160], rout.exc), {'kind': 'non_exception_escaped'})
+            if rout.kind != 'value':
+                failed = True
+            ctx.event(step, 'bad', rout.kind)
+            continue
         src = lang.render(op['prog'], op.get('style', 0))
         ast_real = None
         if op.get('ast_names'):
@@ -312,11 +342,12 @@ def execute(case, ctx):
         # (e) every scope stack seen is back at depth 2
         st = rec.state0
         scopes = getattr(getattr(st, 'names', None), 'scopes', None)
-        if isinstance(scopes, list):
+        if isinstance(scopes, list) and rec.scope_depth0 is not None:
             ctx.probe('depth_checked')
-            if len(scopes) != 2:
-                ctx.report('scope_stack_not_unwound', 'step %d %r: scope stack depth %d after the call returned (%s)' % (
-                    step, src[:200], len(scopes), rout.brief()[:2]), {'kind': 'scope_stack_not_unwound'})
+            # scopes pushed for lambda calls must be gone: never deeper than when the first node of the call started
+            if len(scopes) > rec.scope_depth0:
+                ctx.report('scope_stack_not_unwound', 'step %d %r: scope stack depth %d after the call returned, %d when its evaluation started (%s)' % (
+                    step, src[:200], len(scopes), rec.scope_depth0, rout.brief()[:2]), {'kind': 'scope_stack_not_unwound'})
         ctx.op_kind('abort' if op.get('budget') else rout.kind)
         ctx.state(W.state_digest())
 
@@ -325,10 +356,10 @@ def simplify(case):
     from ..shrink import simplify_trees
     yield from simplify_trees(case, None)
     for i, op in enumerate(case['ops']):
-        if op.get('budget'):
+        if op.get('budget') and 'prog' in op:
             o2 = {k: v for k, v in op.items() if k != 'budget'}
             yield dict(case, ops=case['ops'][:i] + [o2] + case['ops'][i + 1:])
 
 
 def sample(case):
-    return {'world': case['world'], 'ops': [[lang.render(o['prog'], 0), o.get('budget'), bool(o.get('ast_names'))] for o in case['ops']][:6]}
+    return {'world': case['world'], 'ops': [[lang.render(o['prog'], 0) if 'prog' in o else o['src'], o.get('budget'), bool(o.get('ast_names')), o.get('space')] for o in case['ops']][:6]}
